@@ -23,7 +23,7 @@ from .c11_oscore import make, wire, SECRET, SALT
 PROP = "C13"
 LEVEL = "fault_enumeration"
 RULE = ("fault enumeration: histories over {P protect request, A(n) accept genuine request n in {0,1,5}, AE(n) accept with fresh Echo, R "
-        "respond to the last accepted request (twice: reuse then own number), Q / QP own request answered by the peer without / with its own Partial IV, S clean stop + reload, X plant a stray temp file} up to "
+        "respond to the last accepted request (twice: reuse then own number), Q / QP own request answered by the peer without / with its own Partial IV, S clean stop + reload, K process death between two operations + reload, X plant a stray temp file} up to "
         "length L (AR: the request that completed the last Echo exchange arrives again; in the quick tier the middle operation of the longest histories is one of P, AE, R, S, Q), chunk sizes start in {1,2,3,10} x limit in {4,10000}; for every history, every file-system effect k of every operation "
         "and every mode (before / after / half-written) one run with the process dying there, then reload and continue; plus "
         "exhaustion histories starting at 2^40-3..2^40-1. distinct = distinct (history, crash point)")
@@ -310,6 +310,10 @@ class Run:
             self.unclean = False
             self.accepted_since_clean = False
             self.load()
+        elif op[0] == "K":
+            # the process dies between two operations, at a moment without any file-system effect, and is started again
+            self.die()
+            self.load()
         elif op[0] == "X":
             with open(os.path.join(self.dir, ".sequence-stray.json"), "w") as f:
                 json.dump({"next-to-send": 0, "received": {"index": 0, "bitfield": 0}}, f)
@@ -377,7 +381,7 @@ def execute(history, start, limit, plan, seq_json=None):
     return r, per_op, names
 
 
-OPS = [("P",), ("A", 0), ("A", 1), ("A", 5), ("AE", 6), ("AR",), ("R",), ("S",), ("X",), ("Q",), ("QP",)]
+OPS = [("P",), ("A", 0), ("A", 1), ("A", 5), ("AE", 6), ("AR",), ("R",), ("S",), ("X",), ("Q",), ("QP",), ("K",)]
 CORE = [("P",), ("AE", 6), ("R",), ("S",), ("Q",)]     # middle operations of the longest quick histories
 
 
